@@ -174,6 +174,34 @@ def run(ctx):
         if real != spec:
             kind = 'raises' if ' ERR ' in real and ' ERR ' not in spec else ('should-raise' if ' ERR ' in spec and ' ERR ' not in real else 'wrong-cells')
             ctx.spec_fail('%s|%s' % (name, kind), '%s does not produce the documented rows/cells' % name, c2)
+    # ---- views configured through item assignment (rename(t)['a'] = 'b', convert(t)['f'] = fn): what one view was asked to do
+    # must not leak into another view of the same kind
+    for ci in range(40 if ctx.thorough() else 10):
+        T1 = gen.table(rng, ['a', 'b'], default_pool=CELLS, maxn=4, ragged=0.0, n=rng.choice([1, 2, 3]))
+        T2 = gen.table(rng, ['b', 'c'], default_pool=CELLS, maxn=4, ragged=0.0, n=rng.choice([1, 2, 3]))
+        v1 = etl.rename(T1)
+        v1['a'] = 'x'
+        v2 = etl.rename(T2)
+        o1, o2 = util.run_show(lambda: v1), util.run_show(lambda: v2)
+        w1 = util.show_out([tuple(['x', 'b'])] + [tuple(r) for r in T1[1:]])
+        w2 = util.show_out([tuple(r) for r in T2])
+        ctx.case(('rename[]', repr(T1), repr(T2)))
+        ctx.count('op:item-assignment')
+        if o1 != w1 or o2 != w2:
+            ctx.spec_fail('rename|item-assignment', 'rename(t)[old] = new: the view, or a second rename view created afterwards, is not what was asked for',
+                          {'table1': repr(T1), 'table2': repr(T2), 'view1': o1, 'view2': o2, 'want1': w1, 'want2': w2})
+        c1 = etl.convert(T1)
+        c1['a'] = lambda v: 'X'
+        c2 = etl.convert(T2)
+        c3 = etl.convert(T2, 'b', lambda v: 'Y')
+        o1, o2, o3 = util.run_show(lambda: c1), util.run_show(lambda: c2), util.run_show(lambda: c3)
+        w1 = util.show_out([tuple(T1[0])] + [('X',) + tuple(r[1:]) for r in T1[1:]])
+        w3 = util.show_out([tuple(T2[0])] + [('Y',) + tuple(r[1:]) for r in T2[1:]])
+        ctx.case(('convert[]', repr(T1), repr(T2)))
+        ctx.count('op:item-assignment')
+        if o1 != w1 or o2 != w2 or o3 != w3:
+            ctx.spec_fail('convert|item-assignment', 'convert(t)[field] = fn: the view, or another convert view created afterwards, is not what was asked for',
+                          {'table1': repr(T1), 'table2': repr(T2), 'view1': o1, 'view2': o2, 'view3': o3})
 
 
 def replay(d):
